@@ -57,7 +57,7 @@ EXTRA_TRUSTED = ["CPython's C3 linearisation (cls.__mro__ is an input of the mod
                  "stringification (computed by the harness with a probe class, independently of attrs)",
                  "harness/translate_c07.py: the translator from the Python text of _collect_base_attrs, "
                  "_collect_base_attrs_broken, the order-check loop of _transform_attrs, add_match_args and the "
-                 "fields_dict comprehension to Gallina (Gen/C07_Collect.v; lemmas in C07/Tie.v)"]
+                 "fields_dict comprehension to Gallina (Gen/C07_u_*.v; lemmas in C07/Tie_*.v, per unit)"]
 ASSUMPTIONS = ["field_transformer hooks are functions of the attribute list they receive",
                "every _CountingAttr object is bound to at most one name of one class body "
                "(counters of the entries of one body are pairwise distinct)",
@@ -113,9 +113,28 @@ def pre_build():
     translate_c07.regenerate()
 
 
+_tie_unavailable = {}
+
+
 def translated_tie():
+    """Per-unit tie: Gen/C07_TieAll.v requires the lemma files of exactly the units whose source is
+    inside the translator's subset, so the driver is handed those (all "translated"); the units that
+    left the subset are listed in the evidence under coverage.translated_tie_units_unavailable (and
+    make the whole tie `unavailable` only when no unit could be translated)."""
     from . import translate_c07
-    return translate_c07.regenerate(), "theories/C07/Tie.vo"
+    status = translate_c07.regenerate()
+    ok = {k: v for k, v in status.items() if v == "translated"}
+    _tie_unavailable.clear()
+    _tie_unavailable.update({k: v for k, v in status.items() if v != "translated"})
+    for k, v in _tie_unavailable.items():
+        print("translated_tie: unit %s unavailable (not a verdict): %s" % (k, v[:200]))
+    if not ok:
+        return status, "theories/Gen/C07_TieAll.vo"
+    return ok, "theories/Gen/C07_TieAll.vo"
+
+
+def extra(tier, seed):
+    return [], {"runtime_observations": 0, "translated_tie_units_unavailable": dict(_tie_unavailable)}
 
 
 # --------------------------------------------------------------------------------------
